@@ -141,6 +141,8 @@ def check(ops, blocks):
                     if st["due"] != exp:
                         pid = "C02" if ty == 4 else "C01"
                         bad(pid, "job %d: due %d after %d runs, expected %d" % (jid, st["due"], st["att"], exp))
+                        if V.cfg[jid][0] == "ONCE":
+                            bad("C03", "one-shot job %d: due %d, next occurrence is %d" % (jid, st["due"], exp))
             # C09: due of a batched job is an occurrence of one entry and nothing earlier was skipped
             if ty != 0 and not c["skip"] and c["delay"] and len(c["timing"]) > 1 and st["has"]:
                 P = PERIOD[ty]
